@@ -4,7 +4,7 @@ from .stagefam import run_family
 
 def main(argv):
     return run_family(
-        "C04", "C04", argv, "XRB",
+        "C04", "C04", argv, "XRBS",
         nontrivial=lambda s: s["nblocks"] > s["n"] + 1,
         rule="closed CFGs: all with <=4 nodes, 5-node ones modulo relabelling (sampled in the quick tier), seeded random 6-18 nodes, "
              "std-lib bytecode CFGs; one TLC state per (behaviour, stage); non-trivial = restructuring created at least one region "
